@@ -504,19 +504,19 @@ phantom points, `ex` = the explicit deltas in 16.16 units (zero where `has` is f
 `(den - 1) / 2` units of 2⁻¹⁶ of the specification's inferred delta `num / den` (`inferSpec`, with
 `den` = 1 for explicit / shifted / clamped points and the coordinate distance of the two reference
 points for interpolated ones), and the phantom points are untouched. -/
-theorem contour_contribution (n : Nat) (hn : 0 < n) (points ex : List Iup.Pt) (has : List Bool)
-    (hpl : points.length = n + 4) (hhl : has.length = n + 4) (hel : ex.length = n + 4)
+theorem contour_contribution (n T : Nat) (hn : 0 < n) (points ex : List Iup.Pt) (has : List Bool)
+    (hpl : points.length = n + T) (hhl : has.length = n + T) (hel : ex.length = n + T)
     (M E : Int) (hM : 0 ≤ M ∧ M ≤ 16383) (hE : 0 ≤ E) (hfit : 131072 * M + 4 * E + 65536 ≤ 2147483647)
     (hpts : ∀ k, (-M ≤ (getP points k).1 ∧ (getP points k).1 ≤ M) ∧ (-M ≤ (getP points k).2 ∧ (getP points k).2 ≤ M))
     (hex : ∀ k, (-E ≤ (getP ex k).1 ∧ (getP ex k).1 ≤ E) ∧ (-E ≤ (getP ex k).2 ∧ (getP ex k).2 ≤ E))
     (hex0 : ∀ k, has.getD k false = false → getP ex k = (0, 0)) :
-    ∃ out, readerInterpolate points has [n - 1] (workOf points ex) = some out ∧ out.length = n + 4 ∧
+    ∃ out, readerInterpolate points has [n - 1] (workOf points ex) = some out ∧ out.length = n + T ∧
       (∀ k, k < n → Near (inferSpec points (ex.take n) has k) (getP out k) (getP points k)) ∧
-      (∀ k, n ≤ k → k < n + 4 → getP out k = getP (workOf points ex) k) := by
-  have hwl : (workOf points ex).length = n + 4 := by simp [workOf, hpl]
+      (∀ k, n ≤ k → k < n + T → getP out k = getP (workOf points ex) k) := by
+  have hwl : (workOf points ex).length = n + T := by simp [workOf, hpl]
   have hdl : (ex.take n).length = n := by simp [List.length_take, hel]
-  obtain ⟨calls, p', ecalls, hA, hB, hC⟩ := readerContourCalls_spec has n (n + 4) hn (by omega)
-  obtain ⟨calls', p'', ecalls', hshape⟩ := readerContourCalls_shape has n (n + 4) hn (by omega)
+  obtain ⟨calls, p', ecalls, hA, hB, hC⟩ := readerContourCalls_spec has n (n + T) hn (by omega)
+  obtain ⟨calls', p'', ecalls', hshape⟩ := readerContourCalls_shape has n (n + T) hn (by omega)
   rw [ecalls] at ecalls'
   simp only [Option.some.injEq, Prod.mk.injEq] at ecalls'
   obtain ⟨rfl, rfl⟩ := ecalls'
@@ -524,7 +524,7 @@ theorem contour_contribution (n : Nat) (hn : 0 < n) (points ex : List Iup.Pt) (h
       = some (calls.foldl (applyCall points) (workOf points ex)) := by
     simp [readerInterpolate, readerCalls, hpl, ecalls]
   rw [hri]
-  have hw : ∀ k, k < n + 4 → getP (workOf points ex) k =
+  have hw : ∀ k, k < n + T → getP (workOf points ex) k =
       ((getP points k).1 * 65536 + (getP ex k).1, (getP points k).2 * 65536 + (getP ex k).2) :=
     fun k hk => getP_workOf points ex k (by omega)
   -- an explicit point that keeps its working value
@@ -574,7 +574,7 @@ theorem contour_contribution (n : Nat) (hn : 0 < n) (points ex : List Iup.Pt) (h
   · -- a single explicit point: the contour is shifted
     subst hshift
     simp only [List.foldl_cons, List.foldl_nil]
-    have hal : (applyCall points (workOf points ex) ⟨0, n - 1, r, r, true⟩).length = n + 4 := by
+    have hal : (applyCall points (workOf points ex) ⟨0, n - 1, r, r, true⟩).length = n + T := by
       rw [applyCall_length, hwl]
     obtain ⟨⟨a1, a2⟩, ⟨a3, a4⟩⟩ := hpts r
     obtain ⟨⟨c1, c2⟩, ⟨c3, c4⟩⟩ := hex r
